@@ -1,8 +1,20 @@
 (* PipeStep.v -- every event of the two-stream system preserves the invariant; hence every reachable state has it. *)
 From Coq Require Import List Bool Arith NArith Lia.
 From RecordUpdate Require Import RecordSet.
-From Pipe Require Import PipeModel PipeFacts PipeTac PipeInv1 PipeInv2 PipeInv3 PipeInv4 PipeSys.
+From Pipe Require Import PipeModel PipeFacts PipeTac PipeInvDefs PipeInv1 PipeInv2 PipeInv3 PipeInv4 PipeSysA PipeSysCfg PipeSysBeginStart PipeSysResetStart PipeSysBeginStop PipeSysEndStop PipeSysFailStart.
 Import ListNotations RecordSetNotations.
+
+Lemma sinv_init : SInv init_stream.
+Proof. split; [apply inv1_init | split; [apply inv2_init | split; [apply inv3_init | apply inv4_init]]]. Qed.
+
+Lemma sinv_step s a e s' : SInv s -> step_stream s a e = Some s' -> SInv s'.
+Proof.
+  intros (H1 & H2 & H3 & H4) H.
+  split; [eapply inv1_step; eassumption | split; [eapply inv2_step; eassumption | split; [eapply inv3_step; eassumption | eapply inv4_step; eassumption]]].
+Qed.
+
+Lemma yinv_init : YInv init_sys.
+Proof. constructor; cbn; auto using sinv_init. Qed.
 
 Lemma fail_start_call s : valid s = true \/ (c_stop s = CNone /\ c_start s = TNone) -> call_ok InStartFail (fail_start s).
 Proof.
